@@ -70,6 +70,8 @@ func generate(w *mon.W) {
 			p = manyConditions(rng, 1+(i/9)%10)
 		case 6:
 			p = pairedConditions(rng, (i/9)%6)
+		case 7:
+			p = oneSidedConditions(rng, (i/9)%30)
 		}
 		c := &pipecheck.Case{Pipe: p}
 		for k := 0; k < nInst; k++ {
@@ -255,6 +257,28 @@ func pairedConditions(rng interface{ Intn(int) int }, form int) *Pipe {
 	if rng.Intn(2) == 0 {
 		p.Ops = append(p.Ops, &Op{K: "where", X: Bin(">=", Name("id"), Num("0"))})
 	}
+	kind := []string{"", "inner", "leftouter", "innerunique"}[rng.Intn(4)]
+	p.Ops = append(p.Ops, &Op{K: "join", Kind: kind, Right: &Pipe{Table: Ident{Name: "U"}}, Conds: conds})
+	if rng.Intn(2) == 0 {
+		p.Ops = append(p.Ops, &Op{K: "count"})
+	}
+	return p
+}
+
+// oneSidedConditions: a key condition followed by two conditions that each
+// mention one side only (a comparison with a literal, bare or under not(), a
+// null test), in every order: form picks the ordered pair.
+func oneSidedConditions(rng interface{ Intn(int) int }, form int) *Pipe {
+	l := func(c string) *E { return Name("$left", c) }
+	r := func(c string) *E { return Name("$right", c) }
+	pool := []*E{Call("not", Bin("==", l("ia"), Num("1"))), Bin(">", r("ub"), Num("0")), Bin("==", l("j"), Num("1")), Call("not", Call("isnull", r("j"))), Bin("!=", r("ub"), Num("0")), Call("isnull", l("ia"))}
+	a := form % 6
+	b := (a + 1 + form/6) % 6
+	conds := []*E{Name("k"), pool[a], pool[b]}
+	if rng.Intn(3) == 0 {
+		conds = []*E{pool[a], Name("k"), pool[b]}
+	}
+	p := &Pipe{Table: Ident{Name: "T"}}
 	kind := []string{"", "inner", "leftouter", "innerunique"}[rng.Intn(4)]
 	p.Ops = append(p.Ops, &Op{K: "join", Kind: kind, Right: &Pipe{Table: Ident{Name: "U"}}, Conds: conds})
 	if rng.Intn(2) == 0 {
